@@ -1,10 +1,63 @@
 import DFV.JsonField
+import DFV.Model.Transform
 namespace DFV.Drv
-open Lean DFV
+open Lean DFV DFV.T
 
-/-- driver ops of property C13 (stub: no ops yet) -/
+def optRats (j : Json) (k : String) : R (Option (List Rat)) :=
+  match fldOpt j k with
+  | none => pure none
+  | some v => some <$> listOf ratOfJson v
+
+def opOfJson (j : Json) : R Op := do
+  let t ← strOfJson (← fld j "t")
+  let inplace ← boolOfJson (← fld j "inplace")
+  match t with
+  | "translate" => pure (.translate (← rats j "v") inplace)
+  | "scale" =>
+    let f ← fld j "f"
+    let fac ← match f with
+      | .arr _ => Factor.vec <$> listOf ratOfJson f
+      | _ => Factor.scalar <$> ratOfJson f
+    pure (.scale fac (← optRats j "ref") inplace)
+  | "rotate90" =>
+    pure (.rotate90 (← strOfJson (← fld j "ax1")) (← strOfJson (← fld j "ax2")) (← intOfJson (← fld j "k"))
+      (← optRats j "ref") inplace)
+  | _ => throw s!"unknown transformation {t}"
+
+/-- run a history, reporting receiver and returned object after every step -/
+def history {σ} (step : σ → Op → M (σ × σ)) (toJ : σ → Json) (s : σ) (ops : List Op) : Json :=
+  let rec go (cur : σ) (ops : List Op) (acc : List Json) : List Json :=
+    match ops with
+    | [] => acc.reverse
+    | op :: rest =>
+      match step cur op with
+      | .ok (recv, ret) => go ret rest (Json.mkObj [("ok", Json.mkObj [("recv", toJ recv), ("ret", toJ ret)])] :: acc)
+      | .error e => go cur rest (errJ e :: acc)
+  Json.arr (go s ops []).toArray
+
 def c13 (op : String) (j : Json) : Option (R Json) :=
   match op with
+  | "region_history" => some do
+      let r ← regionOfJson (← fld j "region")
+      let ops ← listOf opOfJson (← fld j "ops")
+      pure (history stepR regionToJson r ops)
+  | "mesh_history" => some do
+      let m ← meshOfJson (← fld j "mesh")
+      let ops ← listOf opOfJson (← fld j "ops")
+      pure (history stepM meshToJson m ops)
+  | "field_history" => some do
+      let f ← fldOfJson (← fld j "field")
+      let ops ← listOf opOfJson (← fld j "ops")
+      pure (history stepF fldToJson f ops)
+  | "set_subs" => some do
+      let m ← meshOfJson (← fld j "mesh")
+      let subs ← subsOfJson (← fld j "cand")
+      pure (resJ meshToJson (setSubs { m with subs := [] } subs))
+  | "is_aligned" => some do
+      let m ← meshOfJson (← fld j "mesh")
+      let o ← meshOfJson (← fld j "other")
+      let tol ← match fldOpt j "tol" with | some t => ratOfJson t | none => pure (1/1000000000000 : Rat)
+      pure (Json.mkObj [("ok", .bool (isAligned m o tol))])
   | _ => none
 
 end DFV.Drv
